@@ -170,6 +170,7 @@ def execute(mod, case, ctx):
     """run one case with accounting; returns 'ok' | 'discard'; raises Violation"""
     ctx.begin()
     case = json.loads(canonical(case))  # exactly what a replay file would contain
+    ctx.current_case = case
     try:
         mod.run_case(case, ctx)
     except Discard as d:
@@ -400,8 +401,76 @@ def run_check(pid, tier, a):
     for k in range(shards):
         cmd = [sys.executable, os.path.join(VERIF, "check"), pid, "--tier", tier, "--shard", str(seed * 1000 + k), "--n", str(per), "--shrink", str(shrink)]
         procs.append(subprocess.Popen(cmd, stdout=subprocess.PIPE, stderr=subprocess.PIPE, cwd=VERIF, env=dict(os.environ, PYTHONHASHSEED="0")))
+    # 3b. coverage-guided phase (thorough tier): libFuzzer/atheris drives the same strategy and oracle with ufo2ft instrumented for edge coverage
+    fuzz = getattr(mod, "FUZZ", {}).get(tier, (8, max(150, per // 4)) if tier == "thorough" else None)
+    if os.environ.get("VERIF_NO_FUZZ"):
+        fuzz = None
+    fprocs = []
+    fuzz_note = None
+    if fuzz:
+        try:
+            sys.path.insert(0, os.path.join(VERIF, ".deps"))
+            import atheris  # noqa: F401
+        except Exception as e:  # not installed: the phase is skipped and said so, it is not an error of the check
+            fuzz_note = "coverage-guided phase skipped: atheris not importable (%s)" % type(e).__name__
+            fuzz = None
+    if fuzz:
+        fdir = os.path.join(VERIF, "out", ".fuzz")
+        os.makedirs(fdir, exist_ok=True)
+        import shutil
+
+        for k in range(fuzz[0]):
+            stats = os.path.join(fdir, "%s-%d.json" % (pid, k))
+            corpus = os.path.join(fdir, "%s-%d-corpus" % (pid, k))
+            shutil.rmtree(corpus, ignore_errors=True)
+            if os.path.exists(stats):
+                os.remove(stats)
+            cmd = [sys.executable, "-m", "ufoverif.fuzz", pid, tier, str(seed * 1000 + 500 + k), str(fuzz[1]), stats, corpus]
+            fprocs.append((subprocess.Popen(cmd, stdout=subprocess.DEVNULL, stderr=subprocess.PIPE, cwd=VERIF, env=dict(os.environ, PYTHONHASHSEED="0")), stats, corpus))
     results = []
     inconclusive = 0
+    fuzz_stats = {"shards": len(fprocs), "runs_per_shard": fuzz[1] if fuzz else 0, "executions": 0, "evaluations": 0, "corpus_files": 0, "note": fuzz_note}
+    for p, stats, corpus in fprocs:
+        remaining = max(5.0, budget + 30 - (time.time() - t0))
+        try:
+            _, err = p.communicate(timeout=remaining)
+        except subprocess.TimeoutExpired:
+            p.kill()
+            p.communicate()
+            inconclusive += 1
+            err = b""
+        doc = None
+        if os.path.exists(stats):
+            try:
+                doc = json.load(open(stats))
+            except Exception:
+                doc = None
+        if doc is None:
+            # the phase is auxiliary: an infrastructure problem of the fuzzer is recorded in the evidence, it does not decide anything
+            fuzz_stats["note"] = "a coverage-guided shard produced no statistics (exit %s): %s" % (p.returncode, err.decode("utf-8", "replace")[-300:])
+            continue
+        if p.returncode not in (0, 77, -9):
+            fuzz_stats["note"] = "a coverage-guided shard exited with %s: %s" % (p.returncode, err.decode("utf-8", "replace")[-300:])
+        fuzz_stats["executions"] += doc.get("executions", 0)
+        fuzz_stats["evaluations"] += doc.get("evaluations", 0)
+        fuzz_stats["corpus_files"] += len(os.listdir(corpus)) if os.path.isdir(corpus) else 0
+        r = {k: doc.get(k) for k in ("evaluations", "labels", "counters", "discards", "nontrivial", "samples") if doc.get(k) is not None}
+        r["seed"] = doc.get("seed")
+        r["fuzz"] = True
+        f = doc.get("failure")
+        if f and f.get("case") is not None:
+            # confirm outside Hypothesis / libFuzzer, like the random shards do
+            try:
+                mod.run_case(f["case"], Ctx())
+                fuzz_stats["note"] = "a coverage-guided failure did not reproduce outside the fuzzer (state leaking between executions?): %s" % f.get("msg")
+            except Violation as v:
+                r["failure"] = {"case": f["case"], "msg": v.msg, "details": v.details}
+            except Discard:
+                pass
+        results.append(r)
+        import shutil
+
+        shutil.rmtree(corpus, ignore_errors=True)
     for p in procs:
         remaining = max(5.0, budget + shrink + 30 - (time.time() - t0))
         try:
@@ -416,9 +485,13 @@ def run_check(pid, tier, a):
             errors.append("shard produced no result: %s" % (err.decode("utf-8", "replace")[-2000:]))
             continue
         results.append(json.loads(out.split("@@RESULT@@", 1)[1].strip().splitlines()[0]))
+    rand_evals, rand_labels = total.evaluations, collections.Counter(total.labels)  # the floors are a statement about the random generator only
     for r in results:
         if "error" in r:
             errors.append("shard %s: %s" % (r.get("seed"), r["error"]))
+        if not r.get("fuzz"):
+            rand_evals += r.get("evaluations", 0)
+            rand_labels.update(r.get("labels", {}))
         total.evaluations += r.get("evaluations", 0)
         total.labels.update(r.get("labels", {}))
         total.counters.update(r.get("counters", {}))
@@ -439,9 +512,9 @@ def run_check(pid, tier, a):
 
     # 4. floors: a starving generator is a harness defect
     floors = getattr(mod, "FLOORS", {})
-    if total.evaluations >= 50 and not violations:
+    if rand_evals >= 50 and not violations:
         for lab, frac in floors.items():
-            got = total.labels.get(lab, 0) / total.evaluations
+            got = rand_labels.get(lab, 0) / rand_evals
             if got < frac:
                 errors.append("generator floor not met: label %r in %.1f%% of cases (< %.1f%%)" % (lab, 100 * got, 100 * frac))
 
@@ -472,6 +545,7 @@ def run_check(pid, tier, a):
             "examples_per_shard": per,
             "shards_inconclusive_budget": inconclusive,
             "exhaustive": bool(exhaustive),
+            "coverage_guided_phase": fuzz_stats,
             "known_findings_reported": known_lines,
             "harness_errors": errors[:5],
         },
